@@ -35,8 +35,8 @@ def name(rnd: random.Random, archive_ok: bool = False) -> str:
             s += rnd.choice(SEPS) + rnd.choice(WORDS)
         if rnd.random() < 0.1:
             s = "".join(rnd.choice(ALNUM) for _ in range(rnd.randint(1, 3))) + s
-        if archive_ok or not looks_like_archive(s):
-            return s
+        if archive_ok or not looks_like_archive(s) or rnd.random() < 0.3:
+            return s        # names ending like an archive are ordinary names (regression of poetry-core f169cc2)
     return "foo"
 
 
@@ -105,8 +105,8 @@ HOSTS = ["example.com", "github.com", "files.pythonhosted.org", "h", "git.exampl
 USERS = ["git", "user", "u-1", "x.y", "build_bot"]
 SEGS = ["org", "repo", "a", "my-project", "Some.Repo", "x_y", "~user", "v2", "group", "sub.group", "123", "r"]
 REVS = ["main", "v1.0", "1.2.3", "feature/x", "abc1234", "0123456789abcdef0123456789abcdef01234567", "release-2.0", "dev_branch", "HEAD", "a"]
-SUBDIRS = ["sub", "pkg/core", "a_b", "src/my-pkg", "x/y/z", "p"]
-DOT_SUBDIRS = ["my.pkg", "src/lib.core"]
+SUBDIRS = ["sub", "pkg/core", "a_b", "src/my-pkg", "x/y/z", "p", "my.pkg", "src/lib.core"]   # with dots: regression of 99e1c95
+DOT_SUBDIRS = ["my.pkg", "src/lib.core", "v1.2/pkg"]
 
 
 def archive_url(rnd: random.Random, pkg: str, wheel_consistent: bool = True) -> tuple[str, str | None]:
